@@ -3,25 +3,24 @@ import json
 import os
 
 VERIF = os.path.dirname(os.path.dirname(os.path.abspath(__file__)))
-TB = ('Trusted: Coq 8.16.1 kernel (vm_compute used, native_compute not); no axiom declared by the development, no Admitted; '
-      'axioms under Print Assumptions are only those of Coq Reals / Coquelicot (ClassicalDedekindReals.sig_forall_dec, sig_not_dec, '
-      'FunctionalExtensionality.functional_extensionality_dep, Classical_Prop.classic) for R-valued theorems and none for Z/list theorems; ')
-
-CHECKS = {
-    'C16': dict(
-        text='Theorems (props/C16.v, 25) about Coq definitions over R that py2coq regenerates from rambgood.py, hookeslaw.py and '
-             'true_stress_strain.py on every run: Ramberg-Osgood strain odd / strictly increasing / bijective (exact inverse exists and is unique), '
-             'residual-to-root bound, compliance = derivative (Coquelicot is_derive), modulus reciprocal, Masing doubling, lower branch meets curve; '
-             'Hooke 1D/2D/3D round trips, plane strain/stress = 3D at zero out-of-plane strain/stress, G and K; true stress/strain inverses. '
-             'A changed formula breaks a proof; per-run interval certificates (kernel-checked, CoqInterval) tie the generated model to the '
-             'implementation\'s float outputs, Newton inversion by residual certificate.',
-        note=TB + 'py2coq translator and its whitelist; CoqInterval; float rounding and scipy.optimize.newton are outside the theorems '
-                  '(solver output certified per sample).',
-        technique='Coq proof over py2coq-generated real-valued model + CoqInterval certificates',
-        design='6/C16'),
-}
+import importlib
+import sys
+sys.path.insert(0, os.path.join(VERIF, 'harness'))
+os.environ.setdefault('PYTHONPATH', '')
 
 ALL = ['C%02d' % i for i in range(1, 21)]
+CHECKS = {}
+NA_REASON = {}
+for _pid in ALL:
+    try:
+        _m = importlib.import_module('props.' + _pid.lower())
+    except ImportError:
+        continue
+    if getattr(_m, 'MANIFEST', None):
+        CHECKS[_pid] = _m.MANIFEST
+    if getattr(_m, 'NOT_APPLICABLE', None):
+        NA_REASON[_pid] = _m.NOT_APPLICABLE
+
 
 
 def main():
@@ -41,7 +40,7 @@ def main():
             'level_note': c['note'],
             'technique': c['technique'],
         })
-    na = [{'property_id': p, 'reason': 'check not built yet (work in progress); not a claim that the technique cannot apply'}
+    na = [{'property_id': p, 'reason': NA_REASON.get(p, 'check not built yet (work in progress); not a claim that the technique cannot apply')}
           for p in ALL if p not in CHECKS]
     m = {
         'version': 1,
